@@ -125,6 +125,7 @@ def write_evidence(ctx, proof, violations, prop):
         "axioms": proof.get("axioms", {}),
         "proof_stage_ok": proof.get("ok", False),
         "broken_obligations": proof.get("broken", []),
+        "leanchecker": proof.get("leanchecker", "thorough tier only"),
         "evaluations": ctx.evals,
         "distinct_nontrivial": len(ctx.nontrivial),
         "rule": ctx.rule or getattr(prop, "RULE", ""),
